@@ -5,6 +5,7 @@ import (
 	"fmt"
 	"os"
 	"strings"
+	"time"
 
 	"github.com/canopy-network/canopy/bft"
 	"github.com/canopy-network/canopy/lib"
@@ -134,10 +135,17 @@ func heal(r *sim.Rng, n *bftsim.Net, correct map[int]bool, byzIdx int, maxRounds
 	for rr := uint64(0); rr <= r0+maxRounds; rr++ {
 		budget += roundLeft(bft.Election, rr)
 	}
+	wallStart := time.Now()
 	for q.Len() > 0 && !allDone() {
 		e := heap.Pop(q).(*event)
 		now = e.at
 		if now > budget {
+			break
+		}
+		// real-time cap per run (signature checks dominate): a run that is still going after this long has used most of its
+		// round budget already; it is recorded as not committed
+		if time.Since(wallStart) > healWallCap {
+			res.Skipped = ""
 			break
 		}
 		if rootNext > 0 && now >= rootNext {
@@ -204,6 +212,8 @@ func heal(r *sim.Rng, n *bftsim.Net, correct map[int]bool, byzIdx int, maxRounds
 func healLit(powers []uint64, byzIdx int, h healResult, maxRounds uint64) string {
 	return fmt.Sprintf("mkLive %s %s %s %s", sim.CoqNList(powers), sim.CoqBool(h.Committed), sim.CoqN(h.RoundsNeeded), sim.CoqN(h.Bound))
 }
+
+var healWallCap = 90 * time.Second
 
 var debugHeal = os.Getenv("VERIF_DEBUG") == "2"
 var debugFrom int64 = func() int64 { var x int64; fmt.Sscanf(os.Getenv("VERIF_DEBUG_FROM"), "%d", &x); return x }()
